@@ -48,8 +48,14 @@ def main(argv: list[str]) -> int:
             data = json.loads(open(replay).read())
             return mod.replay(data)
         chk = Check(pid, mod.LEVEL, tier)
+        chk.coverage["rule"] = getattr(mod, "RULE", "cases are the scenarios generated from the TLA+ generator specification of this check; non-trivial = the scenario exercised the behaviour the property is about")
         mod.run(chk)
-        return chk.finish()
+        rc = chk.finish()
+        problem = _evidence_problem(pid)
+        if problem:
+            print(f"MACHINERY-FAILURE property={pid}: evidence file does not validate: {problem}", file=sys.stderr)
+            return 2
+        return rc
     except (MachineryFailure, TlcFailure) as ex:
         print(f"MACHINERY-FAILURE property={pid}: {ex}", file=sys.stderr)
         return 2
@@ -57,6 +63,24 @@ def main(argv: list[str]) -> int:
         traceback.print_exc()
         print(f"MACHINERY-FAILURE property={pid}: unexpected exception", file=sys.stderr)
         return 2
+
+
+def _evidence_problem(pid: str) -> str | None:
+    """The evidence file just written must be a valid record for its level (schemas/EVIDENCE.schema.json)."""
+    from pathlib import Path
+
+    from .common import EVIDENCE_DIR
+
+    try:
+        import jsonschema
+    except ImportError:
+        return None
+    schema = json.loads((Path(__file__).parent / "schemas" / "EVIDENCE.schema.json").read_text())
+    try:
+        jsonschema.validate(json.loads((EVIDENCE_DIR / f"{pid}.json").read_text()), schema)
+    except jsonschema.ValidationError as ex:
+        return ex.message[:300]
+    return None
 
 
 if __name__ == "__main__":
